@@ -16,6 +16,7 @@ Transitions offered at every scheduling point, in canonical order (choice 0 = de
 import collections
 import copy
 import pickle
+import sys
 import threading
 import traceback
 
@@ -225,6 +226,9 @@ class ActorSim:
         self.ignore_timers = False
         self.on_deliver = None
         self.state_fn = None  # canonical state for explicit-state search (see explore.StatefulChooser)
+        # optional predicate on code objects: inside matching functions every *line* of an actor handler is a point at which an
+        # executor thread of the same actor that is runnable at this instant may be stepped (one deviation each)
+        self.line_preempt = None
 
     # ---------------------------------------------------------------- actors
     def offset_of(self, k):
@@ -304,6 +308,13 @@ class ActorSim:
         saved = CLOCK.offset
         CLOCK.offset = self.offsets.get(rec.process, 0.0)
         self.current_actor = receiver_key
+        traced = False
+        if self.line_preempt is not None:
+            owned = [t for t in self.threads if t.owner == receiver_key]
+            if owned:
+                self._owned_threads = owned
+                traced = True
+                sys.settrace(self._global_trace)
         try:
             try:
                 rec.inst.receiveMessage(msg, sender_addr)
@@ -320,6 +331,8 @@ class ActorSim:
                     if sender_key != receiver_key:
                         self.send(rec.addr, sender_addr, ta.PoisonMessage(msg, first))
         finally:
+            if traced:
+                sys.settrace(None)
             self.current_actor = None
             CLOCK.offset = saved
         if isinstance(msg, ta.ActorExitRequest) and rec.alive:
@@ -359,6 +372,18 @@ class ActorSim:
         self.exit_actor(k, recursive=False)
 
     # ---------------------------------------------------------------- threads
+    def _global_trace(self, frame, event, arg):
+        if event == "call" and self.line_preempt(frame.f_code):
+            return self._local_trace
+        return None
+
+    def _local_trace(self, frame, event, arg):
+        # (tracing is per OS thread and suspended while this callback runs, so the stepped executor thread is not traced)
+        if event == "line" and self.current_thread is None:
+            for t in self._owned_threads:
+                self.sync_point(t, f"line:{frame.f_code.co_name}+{frame.f_lineno - frame.f_code.co_firstlineno}")
+        return self._local_trace
+
     def sync_point(self, thread, what):
         """called from an actor handler (explorer side) on an object shared with `thread`"""
         if self.current_thread is not None or thread is None:
